@@ -34,11 +34,12 @@ Definition valid_name (n : string) : bool :=
   negb (String.eqb n "" || String.eqb n "." || String.eqb n ".."
         || (contains_byte slash n || contains_byte bslash n || contains_byte nul n)).
 
-(* parsePluginName (unix): strings.CutPrefix(fileName, "notation-"), non-empty rest *)
+(* parsePluginName (unix): strings.CutPrefix(fileName, "notation-"), and the
+   rest must pass validatePluginName (since /repo 30cc14e: a file named
+   notation-. or notation-.. or notation-a\b is no plugin executable) *)
 Definition parse_plugin_name (f : string) : option string :=
   match cut_prefix bin_prefix f with
-  | Some EmptyString => None
-  | Some n => Some n
+  | Some n => if valid_name n then Some n else None
   | None => None
   end.
 
@@ -614,7 +615,21 @@ Definition candidates (w : fs) (src : string) : list string :=
   | _ => []
   end.
 
-Definition install_ok (i : input) (o : obs) (src : string) : bool :=
+(* what follows "notation-" in the names of the regular files an install
+   source offers, whether or not it is acceptable as a plugin name *)
+Definition raw_name (f : string) : list string :=
+  match cut_prefix bin_prefix f with Some n => [n] | None => [] end.
+Definition raw_names (w : fs) (src : string) : list string :=
+  match stat w src with
+  | SOk NDir =>
+      flat_map (fun e => match snd e with NFile _ _ => raw_name (fst e) | NDir => [] end)
+               (children w src)
+  | SOk (NFile _ _) => raw_name (base_name src)
+  | _ => []
+  end.
+
+(* a source that offers an acceptable name *)
+Definition install_ok_some (i : input) (o : obs) (src : string) : bool :=
   let only_src := contained i o None (Some src) in
   match o_err o with
   | ENone =>
@@ -627,6 +642,14 @@ Definition install_ok (i : input) (o : obs) (src : string) : bool :=
       || existsb (fun n => safe_name n
                            && contained i o (Some (allowed (i_root i) n)) (Some src))
                  (candidates (world i) src)
+  end.
+
+(* a source that offers no acceptable name: Install fails, no process runs,
+   nothing is changed *)
+Definition install_ok (i : input) (o : obs) (src : string) : bool :=
+  match candidates (world i) src with
+  | [] => no_effects o && negb (err_eqb (o_err o) ENone)
+  | _ => install_ok_some i o src
   end.
 
 Definition spec_ok (i : input) (o : obs) : bool :=
